@@ -5,7 +5,7 @@
    are an input stream `orc` about which nothing is assumed.  Proved here, for every N, k, target and every stream:
    whatever compile RETURNS evaluates, in the documented orientation (Model/Compiler.nested_eval), to the target and is not empty
    (C05: "never returns a sequence that evaluates to zero or to some other string"). *)
-From PauLie Require Import Pauli Matrix Compiler MatrixT CompilerT LeftFullT.
+From PauLie Require Import Pauli Matrix Compiler MatrixT CompilerT LeftFullT LinearT.
 From PauLieRefine Require Import PySem.
 From PauLieGen Require Import SearchGen.
 From Coq Require Import Lia ZifyBool.
@@ -29,6 +29,11 @@ Proof.
   induction l as [|x l IH]; intros o0 H0 Hb; [exact H0|]. cbn [fold_left]. apply IH.
   - apply OutP_seqo; [exact H0|]. intros s Hs. apply Hb; [exact Hs|left; reflexivity].
   - intros s y Hs Hy. apply Hb; [exact Hs|right; exact Hy].
+Qed.
+Lemma OutP_while fuel cond body : forall s0, I s0 -> (forall s, I s -> cond s = true -> OutP (body s)) -> OutP (while_loop fuel cond body s0).
+Proof.
+  induction fuel as [|f IH]; intros s0 H0 Hb; [exact Logic.I|]. cbn [while_loop]. destruct (cond s0) eqn:C; [|exact H0].
+  pose proof (Hb s0 H0 C) as Hs. destruct (body s0); cbn [uncont] in *; cbn [OutP] in Hs; try exact Hs; try exact Logic.I; apply IH; assumption.
 Qed.
 Lemma OutP_bindr {R'} (c : fres R') k : (forall r, c = FRet r -> OutP (k r)) -> OutP (bindr c k).
 Proof. intros H. destruct c; cbn; auto. Qed.
@@ -144,6 +149,10 @@ Ltac sx_step :=
   | |- OutP _ _ (fold_left _ _ _) =>
       apply OutP_fold; [|let s := fresh "s" in let x := fresh "x" in let Hs := fresh "Hs" in let Hx := fresh "Hx" in
                          intros s x Hs Hx; destruct_state; cbv beta iota zeta in Hs |- *]
+  | |- OutP _ _ (while_loop _ _ _ _) =>
+      apply OutP_while; [|let s := fresh "s" in let Hs := fresh "Hs" in let Hc := fresh "Hc" in intros s Hs Hc; destruct_state; cbv beta iota zeta in Hs, Hc |- *]
+  | |- OutP _ _ (seqo (while_loop _ _ _ _) _) =>
+      apply OutP_seqo; [|let s := fresh "s" in let Hs := fresh "Hs" in intros s Hs; destruct_state; cbv beta iota zeta in Hs |- *]
   | |- OutP _ _ (seqo (seqo _ _) _) => rewrite seqo_assoc
   | |- OutP _ _ (seqo (unloop _) _) =>
       apply OutP_seqo; [|let s := fresh "s" in let Hs := fresh "Hs" in intros s Hs; destruct_state; cbv beta iota zeta in Hs |- *]
@@ -322,7 +331,7 @@ Proof.
   rewrite <- (split_at k r V W E1 E2). eapply ncr_from_good; eassumption.
 Qed.
 
-Theorem gen_s_compile k nr fd fn N V W orc seq : py_S_compile k nr fd fn N V W orc = FRet seq -> good (V ++ W) seq.
+Theorem gen_s_compile fuel k nr fd fn N V W orc seq : py_S_compile fuel k nr fd fn N V W orc = FRet seq -> good (V ++ W) seq.
 Proof.
   unfold py_S_compile. intros H.
   refine (OutP_finish (good (V ++ W)) (fun _ => True) _ seq _ H). clear H.
@@ -336,7 +345,7 @@ Proof.
 Qed.
 
 (* compile_target(target, k): whatever it returns evaluates to the target *)
-Theorem gen_s_compile_target target k orc seq : py_S_compile_target target k orc = FRet seq -> good target seq.
+Theorem gen_s_compile_target fuel target k orc seq : py_S_compile_target fuel target k orc = FRet seq -> good target seq.
 Proof.
   unfold py_S_compile_target. intros H.
   refine (OutP_finish (good target) (fun _ => True) _ seq _ H). clear H.
@@ -345,29 +354,120 @@ Proof.
   apply gen_s_compile in Heqf. rewrite <- (split_at k target _ _ eq_refl eq_refl) in Heqf. exact Heqf.
 Qed.
 
+(* ---------- which strings a returned sequence is made of ---------- *)
+Lemma opt_some_unopt {A} (d : A) (o : option A) : opt_is_some o = true -> o = Some (unopt d o).
+Proof. destruct o; [reflexivity|discriminate]. Qed.
+Lemma kdict_get_in {K A} (eqb : K -> K -> bool) (d : list (K * A)) k v : kdict_get eqb d k = Some v -> exists k', In (k', v) d.
+Proof. induction d as [|[k0 v0] t IH]; cbn; [discriminate|]. destruct (eqb k0 k); [intros E; injection E as <-; eauto|intros E; destruct (IH E) as [k' H]; eauto]. Qed.
+Lemma kdict_set_in {K A} (eqb : K -> K -> bool) (d : list (K * A)) k v k' v' : In (k', v') (kdict_set eqb d k v) -> v' = v \/ In (k', v') d.
+Proof.
+  induction d as [|[k0 v0] t IH]; cbn.
+  - intros [E|[]]. injection E as _ <-. left. reflexivity.
+  - destruct (eqb k0 k); cbn; intros [E|H].
+    + injection E as _ <-. left. reflexivity.
+    + right. right. exact H.
+    + right. left. exact E.
+    + destruct (IH H) as [->|H']; [left; reflexivity|right; right; exact H'].
+Qed.
+
+(* left_map_over_a(V_from, V_to, A): whatever it returns (at any fuel) is a list of members of A *)
+Theorem gen_s_left_map_members fuel Vf Vt A seq : py_S_left_map_over_a fuel Vf Vt A = FRet seq -> forall a, In a seq -> In a A.
+Proof.
+  unfold py_S_left_map_over_a. intros H.
+  refine (OutP_finish (fun r => forall a, In a r -> In a A)
+    (fun '(q, parent, seen, cur_k, sq) => (forall kk v, In (kk, v) parent -> In (snd v) A) /\ (forall a, In a sq -> In a A)) _ seq _ H). clear H.
+  sx.
+  all: try exact I.
+  all: repeat match goal with H : _ /\ _ |- _ => destruct H end.
+  all: try (intros ? []; fail).
+  all: try (split; [first [assumption|intros ? ? []]|first [assumption|intros ? []]]; fail).
+  all: try (intros a Ha; apply in_rev in Ha; auto; fail).
+  - (* the inner while: one more step along the parent pointers *)
+    split; [assumption|]. intros a Ha. apply in_app_or in Ha. destruct Ha as [Ha|[<-|[]]]; [auto|].
+    match goal with H : opt_is_some (kdict_get pstr_eqb ?d ?k) = true, E : unopt ?dd (kdict_get pstr_eqb ?d ?k) = _ |- _ =>
+      pose proof (opt_some_unopt dd _ H) as EK; rewrite E in EK; apply kdict_get_in in EK; destruct EK as [k' EK] end.
+    match goal with HP : forall kk v, In (kk, v) _ -> In (snd v) A |- _ => exact (HP _ _ EK) end.
+  - (* a new entry of the parent dictionary stores a member of A *)
+    split; [|assumption]. intros kk v Hin. apply kdict_set_in in Hin. destruct Hin as [->|Hin]; [cbn [snd]; assumption|eauto].
+Qed.
+
+Definition ext_left (nr : Z) (A : list pstr) : list pstr := map (fun a => a ++ identity (Z.to_nat nr)) A.
+
+(* compile(V, I..I): every string of the returned sequence is a left generator extended by identities *)
+Theorem gen_s_compile_left_members fuel k nr fd fn N V W orc seq : py_S_compile fuel k nr fd fn N V W orc = FRet seq -> is_identity W = true ->
+  forall a, In a seq -> In a (ext_left nr (left_a_minimal (Z.to_nat k))).
+Proof.
+  unfold py_S_compile. intros H HW.
+  refine (OutP_finish (fun r => forall a, In a r -> In a (ext_left nr (left_a_minimal (Z.to_nat k)))) (fun _ => True) _ seq _ H). clear H.
+  sx.
+  all: try exact I.
+  all: try congruence.
+  all: match goal with HO : py_S_sequence_to_paulie_orientation _ = FRet ?r |- forall a, In a ?r -> _ => rewrite gen_s_orient in HO; cbn [app] in HO; injection HO as <- end.
+  all: intros a Ha; apply in_app_or in Ha; destruct Ha as [Ha|[<-|[]]].
+  all: try (apply in_rev in Ha; apply in_map_iff in Ha; destruct Ha as [b [<- Hb]]; apply in_map_iff; exists b; split; [reflexivity|eapply gen_s_left_map_members; eassumption]).
+  all: apply in_map_iff; eexists; split; [reflexivity|assumption].
+Qed.
+
+(* _bfs_case3: every string of the returned sequence is a member of the universal set construct_universal_set(n_total, k) *)
+Theorem gen_s_bfs_members k N W dc nc seq U : py_S_bfs_case3 k N W dc nc = FRet (Some seq) -> universal (Z.to_nat N) (Z.to_nat k) = Ok U ->
+  forall a, In a seq -> In a U.
+Proof.
+  unfold py_S_bfs_case3. intros H EU. rewrite EU in H. cbn [res_ok res_val] in H.
+  refine (OutP_finish (fun r => match r with Some s => forall a, In a s -> In a U | None => True end) (fun _ => True) _ (Some seq) _ H). clear H.
+  sx.
+  all: try exact I.
+  all: intros a Ha; apply in_map_iff in Ha; destruct Ha as [i [<- Hi]];
+    match goal with H : forallb _ _ = true |- _ => rewrite forallb_forall in H; specialize (H i Hi); unfold idx_ok in H;
+      destruct (py_index (length U) i) as [j|] eqn:EJ; [|discriminate H] end;
+    unfold list_get; unfold pstr in *; rewrite EJ; apply nth_In; unfold py_index in EJ;
+    destruct ((0 <=? (if i <? 0 then i + Z.of_nat (length U) else i)) && ((if i <? 0 then i + Z.of_nat (length U) else i) <? Z.of_nat (length U)))%bool eqn:B; [|discriminate];
+    injection EJ as <-; lia.
+Qed.
+
 (* ---------- C05 read on the source ---------- *)
 (* whatever compile_target(target, k) returns — for every target, every k, and whatever the untranslated helpers do — is a non-empty sequence
    whose string-level evaluation in the documented orientation is the target ... *)
-Theorem gen_s_c05_evaluates target k orc seq : py_S_compile_target target k orc = FRet seq -> seq <> [] /\ nested_eval seq = Some target.
+Theorem gen_s_c05_evaluates fuel target k orc seq : py_S_compile_target fuel target k orc = FRet seq -> seq <> [] /\ nested_eval seq = Some target.
 Proof. intros H. apply gen_s_compile_target in H. destruct H as [H1 [H2 _]]. split; assumption. Qed.
 
 (* ... and whose nested MATRIX commutator ad_{M s_0}( ... ad_{M s_{m-1}}(M s_m)) is a non-zero multiple of M(target): the clause of C05
    "non-zero and proportional to the target", for every N (Theory/CompilerT.nested_eval_matrix) *)
-Theorem gen_s_c05_matrix target k orc seq : py_S_compile_target target k orc = FRet seq ->
+Theorem gen_s_c05_matrix fuel target k orc seq : py_S_compile_target fuel target k orc = FRet seq ->
   exists c, gnorm c <> 0%Z /\ meq (length target) (nested_comm (length target) seq) (mscale c (M target)).
 Proof.
   intros H. apply gen_s_compile_target in H. destruct H as [H1 [H2 H3]].
   pose proof (nested_eval_matrix (length target) seq H2 H3) as T. rewrite H1 in T. exact T.
 Qed.
 
-(* non-vacuity: the translated compiler runs.  XII with k = 2: the left map is empty; YII: one step; an unhelpful helper: RuntimeError;
-   a helper that hands back a wrong map is caught by the self-check (the next generator is tried, here until the answers run out) *)
+(* ... and for a target that is the identity on the right block (the branch served by the left map alone) ALL THREE clauses of C05 hold:
+   the validator of Model/Compiler.v accepts what compile_target returns — non-empty, every element in the universal set, evaluates to the target *)
+Theorem gen_s_c05_left_only fuel target k orc seq : py_S_compile_target fuel target k orc = FRet seq ->
+  is_identity (skipn (Z.to_nat k) target) = true -> compile_ok (length target) (Z.to_nat k) target seq = true.
+Proof.
+  intros H HW. pose proof (gen_s_compile_target _ _ _ _ _ H) as [E [NE _]].
+  revert H. unfold py_S_compile_target. intros H.
+  refine (OutP_finish (fun r => r = seq -> compile_ok (length target) (Z.to_nat k) target seq = true) (fun _ => True) _ seq _ H eq_refl). clear H.
+  sx.
+  all: try exact I.
+  intros ->.
+  match goal with H : py_S_compile _ _ ?nr _ _ _ _ ?Wt _ = FRet _ |- _ =>
+    assert (EW : Wt = skipn (Z.to_nat k) target) by (apply firstn_all2; rewrite skipn_length; lia);
+    rewrite EW in H; pose proof (gen_s_compile_left_members _ _ _ _ _ _ _ _ _ _ H HW) as M end.
+  unfold compile_ok, universal.
+  assert (G : (Nat.leb 1 (Z.to_nat k) && Nat.ltb (Z.to_nat k) (length target))%bool = true) by lia. rewrite G.
+  destruct seq as [|s0 seq']; [congruence|]. rewrite E, pstr_eqb_refl, andb_true_r.
+  apply forallb_forall. intros a Ha. specialize (M a Ha). unfold memU. apply existsb_exists. exists a. split; [|apply pstr_eqb_refl].
+  apply in_or_app. left. unfold ext_left in M. replace (length target - Z.to_nat k)%nat with (Z.to_nat (Z.of_nat (length target) - k)) by lia. exact M.
+Qed.
+
+(* non-vacuity: the translated compiler runs.  XII with k = 2: the left map is empty; YII: one step found by the translated breadth-first
+   left map; a left-only target outside the reach of the left generators for k = 3 (IXX: even weight): RuntimeError; too little fuel *)
 Example gen_search_runs :
-  py_S_compile_target [PX;PI;PI] 2 [OSub [OLps []]] = FRet [[PX;PI;PI]] /\
-  py_S_compile_target [PY;PI;PI] 2 [OSub [OLps [[PZ;PI]]]] = FRet [[PZ;PI;PI]; [PX;PI;PI]] /\
-  py_S_compile_target [PY;PI;PI] 2 [OSub (repeat (ORaise (EUser "RuntimeError")) 5)] = FRaised (EUser "RuntimeError") /\
-  py_S_compile_target [PY;PI;PI] 2 [OSub [OLps [[PX;PI]]]] = FOutOfFuel /\
-  py_S_compile_target [PY;PI;PI] 1 [] = FRaised (EUser "ValueError") /\
+  py_S_compile_target 100 [PX;PI;PI] 2 [OSub []] = FRet [[PX;PI;PI]] /\
+  py_S_compile_target 100 [PY;PI;PI] 2 [OSub []] = FRet [[PZ;PI;PI]; [PX;PI;PI]] /\
+  py_S_compile_target 100 [PI;PX;PX;PI] 3 [OSub []] = FRaised (EUser "RuntimeError") /\
+  py_S_compile_target 1 [PZ;PY;PI] 2 [OSub []] = FOutOfFuel /\
+  py_S_compile_target 100 [PY;PI;PI] 1 [] = FRaised (EUser "ValueError") /\
   py_S_nested_commutator_result [[PX;PI;PI]; [PZ;PI;PI]] = FRet (Some [PY;PI;PI]) /\
   py_S_nested_commutator_result [[PX;PI;PI]; [PX;PI;PI]] = FRet None /\
   py_S_nested_commutator_result [[PX;PI;PI]; [PX;PI]] = FRaised (EUser "ValueError").
@@ -387,5 +487,9 @@ Print Assumptions gen_s_compile.
 Print Assumptions gen_s_compile_target.
 Print Assumptions gen_s_c05_evaluates.
 Print Assumptions gen_s_c05_matrix.
+Print Assumptions gen_s_left_map_members.
+Print Assumptions gen_s_compile_left_members.
+Print Assumptions gen_s_bfs_members.
+Print Assumptions gen_s_c05_left_only.
 Print Assumptions gen_search_runs.
 Print Assumptions gen_bfs_runs.
